@@ -140,7 +140,49 @@ fn tokens(s: &str) -> Vec<(String, Option<(f64, i32)>)> {
 /// evaluation of rounded data, can fall on either side of a rounding boundary) plus `extra` (absolute)
 /// plus 1e-5 relative; integers must be equal unless `extra` allows otherwise; "-0.00" equals "0.00".
 pub fn reports_equal(a: &str, b: &str, extra: f64) -> bool {
-    let (ta, tb) = (tokens(a), tokens(b));
+    // A by-carrier / by-source table lists a key only when its amount is non-zero: a row `- KEY: v` that only one
+    // of the reports has stands for 0 in the other one, so it is compared with 0 under the same tolerance as any
+    // other number (and dropped if it passes) before the two texts are compared token by token.
+    let small_row = |l: &str| -> bool {
+        match l.strip_prefix("- ").and_then(|r| r.split_once(": ")) {
+            Some((k, v)) if !k.is_empty() && k.chars().all(|c| c.is_ascii_uppercase() || c.is_ascii_digit() || c == '_') => {
+                let t = tokens(v);
+                match (t.len(), t.first()) {
+                    (2, Some((pre, Some((x, dp))))) if pre.is_empty() && t[1].0.is_empty() => x.abs() <= (if *dp > 0 { 1.0001 * 10f64.powi(-*dp) } else { 0.0 }) + extra,
+                    _ => false,
+                }
+            }
+            _ => false,
+        }
+    };
+    let skeleton = |l: &str| -> String { tokens(l).into_iter().map(|(t, n)| if n.is_some() { format!("{t}#") } else { t }).collect() };
+    let (la, lb): (Vec<&str>, Vec<&str>) = (a.lines().collect(), b.lines().collect());
+    let (mut ka, mut kb): (Vec<&str>, Vec<&str>) = (vec![], vec![]);
+    let (mut i, mut j) = (0, 0);
+    while i < la.len() || j < lb.len() {
+        if i < la.len() && j < lb.len() && skeleton(la[i]) == skeleton(lb[j]) {
+            ka.push(la[i]);
+            kb.push(lb[j]);
+            i += 1;
+            j += 1;
+        } else if i < la.len() && small_row(la[i]) {
+            i += 1;
+        } else if j < lb.len() && small_row(lb[j]) {
+            j += 1;
+        } else {
+            // a real difference: keep both lines, the token comparison below reports it
+            if i < la.len() {
+                ka.push(la[i]);
+                i += 1;
+            }
+            if j < lb.len() {
+                kb.push(lb[j]);
+                j += 1;
+            }
+        }
+    }
+    let (a, b) = (ka.join("\n"), kb.join("\n"));
+    let (ta, tb) = (tokens(&a), tokens(&b));
     if ta.len() != tb.len() {
         return false;
     }
